@@ -148,7 +148,7 @@ pub fn enumerated(max_len: usize, batch: usize) -> Vec<KsBatch> {
             }
         }
     }
-    specs.chunks(batch).map(|c| KsBatch { host: Host::Sh, specs: c.to_vec() }).collect()
+    specs.chunks(batch).enumerate().map(|(k, c)| KsBatch { host: if k % 3 == 2 { Host::ShCrlf } else { Host::Sh }, specs: c.to_vec() }).collect()
 }
 
 fn word() -> BoxedStrategy<String> {
@@ -234,7 +234,7 @@ fn long_spec() -> BoxedStrategy<KsSpec> {
 }
 
 pub fn random_batch() -> BoxedStrategy<KsBatch> {
-    (prop_oneof![Just(Host::Sh), Just(Host::Rb)], proptest::collection::vec(long_spec(), 1..6)).prop_map(|(host, specs)| KsBatch { host, specs }).boxed()
+    (prop_oneof![Just(Host::Sh), Just(Host::Rb), Just(Host::ShCrlf)], proptest::collection::vec(long_spec(), 1..6)).prop_map(|(host, specs)| KsBatch { host, specs }).boxed()
 }
 
 pub fn run(run: &mut Run) {
